@@ -15,6 +15,7 @@ from slimta.smtp.client import Client
 from slimta.smtp import ConnectionLost
 
 ID = 'C08'
+REALTIME = True      # runs on the wall clock: an unreproducible failure is re-run before it counts (see runner)
 LEVEL = 'exploration'
 RULE = ('real TLS handshakes over socketpairs (committed self-signed certificate). server: Hypothesis draws a plaintext prefix (EHLO; '
         'optionally MAIL, RCPT), one segment "STARTTLS CRLF" + 0..3 injected plaintext lines (or a partial line), then commands over '
